@@ -260,3 +260,99 @@ func Param(name string, def int) int {
 	}
 	return def
 }
+
+// ---------------------------------------------------------------------------
+// Symbolic clock (DESIGN §3.4). These bodies ARE interpreted (they are built
+// from the intrinsics above), so the same code runs symbolically and natively.
+
+var (
+	clockStarted bool
+	clockNS      int64
+)
+
+const (
+	clockMax  = int64(1) << 61
+	clockStep = int64(1) << 50
+)
+
+// Now returns a non-decreasing instant in [1, 2^61+k·2^50) ns after the epoch.
+func Now() time.Time {
+	if !clockStarted {
+		clockNS = Int64("clock.start")
+		Assume(And(clockNS >= 1, clockNS < clockMax))
+		clockStarted = true
+	}
+	d := Int64("clock.step")
+	Assume(And(d >= 0, d < clockStep))
+	clockNS += d
+	return TimeAt(clockNS)
+}
+
+// ClockNS returns the current clock reading without advancing it.
+func ClockNS() int64 {
+	if !clockStarted {
+		Now()
+	}
+	return clockNS
+}
+
+func Since(t time.Time) time.Duration { return Now().Sub(t) }
+
+// Sleep advances the clock by at least d.
+func Sleep(d time.Duration) {
+	Now()
+	extra := Int64("clock.sleep.extra")
+	Assume(And(extra >= 0, extra < clockStep))
+	if d > 0 {
+		clockNS += int64(d)
+	}
+	clockNS += extra
+	Event("sleep")
+}
+
+// ---------------------------------------------------------------------------
+// Fake file system for the marker files (DESIGN §3.5).
+
+var (
+	Files          = map[string]string{}
+	ErrFileMissing = errNotExist{}
+	FileWrites     []string
+)
+
+type errNotExist struct{}
+
+func (errNotExist) Error() string { return "file does not exist" }
+
+func OsWriteFile(name string, data []byte, perm os.FileMode) error {
+	Files[name] = string(data)
+	FileWrites = append(FileWrites, name)
+	Event("file.write " + name)
+	return nil
+}
+
+func OsStat(name string) (os.FileInfo, error) {
+	if _, ok := Files[name]; ok {
+		return nil, nil
+	}
+	return nil, ErrFileMissing
+}
+
+func OsRemove(name string) error {
+	if _, ok := Files[name]; !ok {
+		return ErrFileMissing
+	}
+	delete(Files, name)
+	Event("file.remove " + name)
+	return nil
+}
+
+func OsReadFile(name string) ([]byte, error) {
+	if c, ok := Files[name]; ok {
+		return []byte(c), nil
+	}
+	return nil, ErrFileMissing
+}
+
+func OsIsNotExist(err error) bool { _, ok := err.(errNotExist); return ok }
+func OsHostname() (string, error) { return "verif-host", nil }
+func OsGetpid() int               { return 4242 }
